@@ -433,7 +433,8 @@ namespace detail
             v.sdigest = hs;
             if constexpr (V::keeps_text) v.text += ")";
             if constexpr (!V::is_ledgered) v.nkids = uint32_t(n);
-            simrt::red(v.rule, h, hs, ctx);
+            // re-entrancy (C15): the functor itself makes the task's next call, with this call still on the stack
+            if (simrt::red(v.rule, h, hs, ctx)) simrt::run_nested();
             return std::move(v);
         }
     };
